@@ -172,11 +172,7 @@ func genSpec(r *vh.Rand, o genOpts) (tables, reqs, scens string, info genInfo) {
 				fs := []fw{{"randInt(source.g.k7, source.g.k7)", "7"}, {"randString(source.g.k2, q)", "qq"}, {"randInt(5, 6)", "5"},
 					{"randString(3, Z)", "ZZZ"}, {"randInt(source.g.k2,2)", "2"}, {"randString(1, source.g.k7)", "7"}}
 				x := fs[r.Intn(len(fs))]
-				v := vh.HexS(x.v)
-				if o.failures && r.Chance(1, 5) {
-					x.w, v = r.Pick([]string{"randInt(x)", "randString(source.g.b, q)", "randInt(1,2,3)"}), "!"
-				}
-				pre = append(pre, "f:F:"+vh.HexS(x.w)+":"+v)
+				pre = append(pre, "f:F:"+vh.HexS(x.w)+":"+vh.HexS(x.v))
 			}
 			if r.Chance(1, 5) {
 				pre = append(pre, "l:L:users:id")
@@ -206,8 +202,12 @@ func genSpec(r *vh.Rand, o genOpts) (tables, reqs, scens string, info genInfo) {
 				pre = append(pre, "z:G:a")
 			}
 		case 2:
+			// a failing mapping stands alone: the mapping is a Go map, so which [next] mappings of the
+			// same preprocessor are evaluated before the failing one is not fixed
 			if o.failures && r.Chance(1, 6) {
 				pre = append(pre, "m:G:missing")
+			} else if o.failures && r.Chance(1, 6) {
+				pre = append(pre, "f:F:"+vh.HexS(r.Pick([]string{"randInt(x)", "randString(source.g.b, q)", "randInt(1,2,3)"}))+":!")
 			}
 		}
 		var post []string
